@@ -61,6 +61,11 @@ type tcase struct {
 	Format   string            `json:"format"` // json | lineprotocol
 	Missing  bool              `json:"selected_script_missing,omitempty"`
 	Symlinks bool              `json:"scripts_are_symlinks,omitempty"`
+	// TZ is the zone of the binary's process ("" = UTC); WsDir names the workspace directory ("" = "ws"), Decoys are
+	// sibling directories of the workspace holding scripts of their own
+	TZ     string   `json:"process_zone,omitempty"`
+	WsDir  string   `json:"workspace_directory,omitempty"`
+	Decoys []string `json:"sibling_directories,omitempty"`
 }
 
 type libOut struct {
@@ -151,8 +156,17 @@ func runBinary(c *tcase) (stdout string, before, after time.Time, err error) {
 		return "", before, after, err
 	}
 	defer os.RemoveAll(dir)
-	ws := filepath.Join(dir, "ws")
+	wsName := "ws"
+	if c.WsDir != "" {
+		wsName = c.WsDir
+	}
+	ws := filepath.Join(dir, wsName)
 	_ = os.MkdirAll(ws, 0o755)
+	for _, d := range c.Decoys {
+		// a sibling directory with a namesake of the selected script: not the workspace
+		_ = os.MkdirAll(filepath.Join(dir, d), 0o755)
+		_ = os.WriteFile(filepath.Join(dir, d, c.Name), []byte("add_key(from_sibling_directory, 1)\nset_measurement(\"decoy\")"), 0o644)
+	}
 	store := filepath.Join(dir, "store")
 	_ = os.MkdirAll(store, 0o755)
 	for n, s := range c.Scripts {
@@ -180,7 +194,7 @@ func runBinary(c *tcase) (stdout string, before, after time.Time, err error) {
 		args = append(args, "-s", c.Name, "-w", "")
 		cwd = ws
 	default:
-		args = append(args, "-s", filepath.Join("ws", c.Name), "-w", "")
+		args = append(args, "-s", filepath.Join(wsName, c.Name), "-w", "")
 	}
 	if c.Input != "none" {
 		in := filepath.Join(dir, "input.dat")
@@ -190,7 +204,11 @@ func runBinary(c *tcase) (stdout string, before, after time.Time, err error) {
 	args = append(args, "--output-type", c.Format)
 	cmd := exec.Command(binary, args...)
 	cmd.Dir = cwd
-	cmd.Env = append(os.Environ(), "TZ=UTC")
+	tz := "UTC"
+	if c.TZ != "" {
+		tz = c.TZ
+	}
+	cmd.Env = append(os.Environ(), "TZ="+tz)
 	var buf bytes.Buffer
 	cmd.Stdout = &buf
 	cmd.Stderr = &buf
@@ -570,6 +588,26 @@ func genCase(t *rapid.T) (*tcase, bool, []string) {
 		}
 	}
 	c.Format = rapid.SampledFrom([]string{"json", "lineprotocol"}).Draw(t, "format")
+	// the workspace directory's own name: blanks, brackets and other characters that mean something to a pattern matcher
+	if rapid.IntRange(0, 2).Draw(t, "wsdir") == 0 {
+		c.WsDir = rapid.SampledFrom([]string{"ws[1]", "ws[x", "ws\\1", "w s", "ws*", "ws?", "{ws}", "ws]", "wé", "ws[a-z]", "%ws", "ws.p"}).Draw(t, "wsname")
+		if rapid.Bool().Draw(t, "decoys") {
+			c.Decoys = []string{"ws1", "wsa", "ws", "wsx"}
+		}
+		labels = append(labels, "workspace/unusual-directory-name")
+		nontrivial = true
+	}
+	// the zone of the process: what the script computes from zone-less text depends on it, so only scripts that do not
+	// format or read times get another zone; the instant printed must be the one the input fixed, or the run's own
+	scriptText := ""
+	for _, sc := range c.Scripts {
+		scriptText += sc
+	}
+	if !strings.Contains(scriptText, "default_time") && !strings.Contains(scriptText, "datetime") && rapid.IntRange(0, 2).Draw(t, "tz") == 0 {
+		c.TZ = rapid.SampledFrom([]string{"Asia/Tokyo", "America/New_York", "Asia/Kolkata", "Pacific/Chatham"}).Draw(t, "zone")
+		labels = append(labels, "process-zone/"+c.TZ)
+		nontrivial = true
+	}
 	if rapid.IntRange(0, 4).Draw(t, "symlinks") == 0 {
 		c.Symlinks = true
 		labels = append(labels, "workspace/scripts-are-symlinks")
